@@ -76,6 +76,9 @@ pub fn judge(doc: &Doc, cover: &mut Cover, out: &mut Vec<Violation>) {
 				machinery(e);
 			}
 			cover.count(if forward { "valid_forward_docs" } else { "valid_docs" }, 1);
+			if text.contains("\\u00") {
+				cover.count("valid_docs_with_escaped_type_strings", 1);
+			}
 			if doc.nontrivial() {
 				cover.nontrivial.insert(hash64(text));
 			}
@@ -138,13 +141,13 @@ pub fn judge(doc: &Doc, cover: &mut Cover, out: &mut Vec<Violation>) {
 }
 
 /// Invalid documents obtained by JSON-level single edits of two spellings of a valid case.
-fn json_edit_docs(case: &AstCase) -> Vec<(&'static str, String)> {
+fn json_edit_docs(case: &AstCase, thorough: bool) -> Vec<(&'static str, String)> {
 	let mut out = Vec::new();
 	let plain = spell(&case.ast, &mut vmodel::Zero, &SpellCfg::plain());
 	let fancy = spell(&case.ast, &mut sgen::DiagPick(1), &SpellCfg { vary_names: true, vary_refs: true, vary_prims: true, vary_scale: false, attr_order: 2, extras: 2, whitespace: 0 });
 	for text in [plain, fancy] {
 		let j = vmodel::json::parse(&text).unwrap_or_else(|e| machinery(format!("own speller produced non-JSON {text}: {e}")));
-		for (class, bad) in sgen::invalid_json_edits(&j) {
+		for (class, bad) in sgen::invalid_json_edits(&j, thorough) {
 			out.push((class, bad.to_min_string()));
 		}
 	}
@@ -156,7 +159,7 @@ pub fn run(rep: &mut Report) {
 	let set = sgen::bases(thorough);
 	let plan = sgen::plan(thorough);
 	rep.rule = format!(
-		"SAE. ASTs by a grammar: a named type is a record / enum / fixed in a namespace from {{∅,a,a.b,b}} with simple names X,Y,Z,W by order of definition (or all X = shadowing); a record has either one int field or 1..n 'edge' fields, an edge = wrapper(new named type | reference to any type already defined or enclosing, where the specification can express it); wrappers Id, array, map, [null,T], [T,int], array<map<T>>, map<[null,T]>, [null,array<T>]. Families: {}. Plus hand-written families: every logical type at the root and as record fields, logical types over fixed/enum/record/array/map with second uses by reference, root unions of named records with recursion through union and map (4x4 namespace arrangements). Plus every forward-reference variant of each valid AST (a definition swapped with its first later reference). ASTs containing an unconditional record cycle form an invalid class. Spellings through vmodel::spell: {}. Oracle per valid document: SchemaMut::from_str Ok, node graph bisimilar to the AST (kinds, fullnames and their namespace/name split, field names and symbols in order, sizes, logical types with parameters, every reference on the node index of its definition), hook H1 canonical form = vmodel::pcf(AST) (not for forward references), freeze Ok. Invalid documents: single edits of valid ASTs with <= {} named types (unknown reference by fullname / by simple name / by removing the definition; simple-name reference to a type that exists only in another namespace, at every reference and int site, incl. null-namespace types from inside a namespace; duplicate definition by re-defining at a reference and by renaming a definition to another's fullname; unconditional record cycle directly / through one / through two records) in 5 spellings each; single JSON edits of two spellings (required attribute deleted: type, name, fields, symbols, size, items, values, field type, field name, decimal precision; the bare strings record/enum/fixed/array/map at every schema position): SchemaMut::from_str and Schema::from_str must return Err. Every generated document is first cross-checked against vmodel's own resolver (valid: resolves to the AST; invalid: rejected). Non-trivial: valid documents with >= 1 reference or >= 1 namespace transition, distinct by text.",
+		"SAE. ASTs by a grammar: a named type is a record / enum / fixed in a namespace from {{∅,a,a.b,b}} with simple names X,Y,Z,W by order of definition (or all X = shadowing); a record has either one int field or 1..n 'edge' fields, an edge = wrapper(new named type | reference to any type already defined or enclosing, where the specification can express it); wrappers Id, array, map, [null,T], [T,int], array<map<T>>, map<[null,T]>, [null,array<T>]. Families: {}. Plus hand-written families: every logical type at the root and as record fields, logical types over fixed/enum/record/array/map with second uses by reference, root unions of named records with recursion through union and map (4x4 namespace arrangements). Plus every forward-reference variant of each valid AST (a definition swapped with its first later reference). ASTs containing an unconditional record cycle form an invalid class. Spellings through vmodel::spell: {}. Oracle per valid document: SchemaMut::from_str Ok, node graph bisimilar to the AST (kinds, fullnames and their namespace/name split, field names and symbols in order, sizes, logical types with parameters, every reference on the node index of its definition), hook H1 canonical form = vmodel::pcf(AST) (not for forward references), freeze Ok. Invalid documents: single edits of valid ASTs with <= {} named types (unknown reference by fullname / by simple name / by removing the definition; simple-name reference to a type that exists only in another namespace, at every reference and int site, incl. null-namespace types from inside a namespace; duplicate definition by re-defining at a reference and by renaming a definition to another's fullname; unconditional record cycle directly / through one / through two records) in 5 spellings each; single JSON edits of two spellings (required attribute deleted: type, name, fields, symbols, size, items, values, field type, field name, decimal precision; the bare strings record/array (thorough: record/enum/fixed/array/map) at every schema position): SchemaMut::from_str and Schema::from_str must return Err. Every generated document is first cross-checked against vmodel's own resolver (valid: resolves to the AST; invalid: rejected). Non-trivial: valid documents with >= 1 reference or >= 1 namespace transition, distinct by text.",
 		sgen::describe_grammars(thorough),
 		sgen::describe_plan(&plan),
 		if thorough { 3 } else { 2 },
@@ -205,7 +208,7 @@ pub fn run(rep: &mut Report) {
 			}
 			// JSON-level single edits
 			let mut seen = std::collections::HashSet::new();
-			for (class, text) in json_edit_docs(case) {
+			for (class, text) in json_edit_docs(case, thorough) {
 				if !sgen::room(cover, out) || !seen.insert(hash64(&text)) {
 					continue;
 				}
@@ -232,6 +235,7 @@ pub fn run(rep: &mut Report) {
 		"valid_docs",
 		"valid_forward_docs",
 		"asts_two_pending_forward_references",
+		"valid_docs_with_escaped_type_strings",
 		"asts_with_empty_enum",
 		"refs_resolved",
 		"asts_shadowing",
